@@ -42,6 +42,15 @@ class State:
         self.err = (type(e), e)
 
 
+def final_tuple(nt):
+    """the one Python tuple a finished NewTuple denotes (object identity matters: compute it once)"""
+    f = getattr(nt, "_final", None)
+    if f is None or len(f) != len(nt):
+        f = tuple(topy(x) for x in nt)
+        nt._final = f
+    return f
+
+
 def topy(v):
     """C-level value -> the Python object it denotes (for calls into Python code)"""
     if isinstance(v, Struct):
@@ -50,7 +59,7 @@ def topy(v):
             raise Unsupported("C struct %r passed to Python code without a Python identity" % (v,))
         return po
     if isinstance(v, NewTuple):
-        return tuple(topy(x) for x in v)
+        return final_tuple(v)
     if v is NULL:
         raise MemSafety("NULL passed where a Python object is required")
     if v is Uninit:
@@ -546,6 +555,16 @@ def build(interp_globals):
             st.from_exception(e)
             return -1
         return 0          # the dict takes its own references; the caller's balance is unchanged
+
+    @model
+    def m_PyDict_SetDefault(d, k, default):
+        try:
+            return d.setdefault(topy(k), topy(default))      # borrowed reference
+        except symx.PathAbort:
+            raise
+        except Exception as e:
+            st.from_exception(e)
+            return NULL
 
     @model
     def m_PyDict_DelItem(d, k):
